@@ -18,6 +18,7 @@ CONSTANTS
   Dtypes = {"f", "c"}
   WildDtypes = {"f"}
   Ops = {}
+  OpForms = {"block"}
   MaxSteps = 0
   MaxE = 2
   StrictOrder = TRUE
